@@ -111,8 +111,17 @@ class Theory(object):
             obs = pt.observable
 
         if 'parameters' in kwargs:
+            # evaluate with temporarily updated parameters and restore them
+            # afterwards - also if the evaluation fails, and also removing
+            # keys that the temporary update has added
             old = self.parameters.copy()
+            rest = {k: v for k, v in kwargs.items() if k != 'parameters'}
             self.parameters.update(kwargs['parameters'])
+            try:
+                return self.predict(pt, uncertainty=uncertainty, **rest)
+            finally:
+                self.parameters.clear()
+                self.parameters.update(old)
 
         fun = getattr(self, obs)
 
@@ -147,10 +156,6 @@ class Theory(object):
             result = (fun(pt), sqrt(var))
         else:
             result = fun(pt)
-
-        if 'parameters' in kwargs:
-            # restore old values
-            self.parameters.update(old)
 
         if kwargs.pop('orig_conventions', False):
             # express result in conventions of original datapoint
